@@ -158,6 +158,9 @@ def jobs(tier):
         J.append(L0('print_format_num', ['C03', 'C07', 'C08', 'C19'], defines=['MAX_CAP=64', 'FMT_STR="%s"' % f], cbmc_flags=['--unwind', '14', '--unwinding-assertions'], jid='L0.print_format_num.fmt%d' % k))
     for fn in ('format_int_decimal', 'format_uint_decimal', 'format_num_hexadecimal'):
         J.append(L0(fn, ['C03', 'C07'], defines=['MAX_CAP=64', 'PF_LIGHT'], replace=['print_format_num'], cbmc_flags=['--unwind', '14', '--unwinding-assertions', '--object-bits', '10']))
+    j = L0('format_info_type', ['C19', 'C03'], defines=['MAX_CAP=48', 'FIX_FSM_NONE'], cbmc_flags=['--unwind', '50', '--unwinding-assertions', '--object-bits', '10'], timeout=2400)
+    j['shape'] = 'capacity 6..48 symbolic, variable names up to 12 bytes over all byte values, every type x width x access, both machines'
+    J.append(j)
     J.append(L0('print_string_to_buf', ['C03', 'C19'], defines=['MAX_CAP=64'], replace=['print_nstring_to_buf'], cbmc_flags=['--unwind', '12', '--unwinding-assertions']))
     # buffer formatters under loop contracts: one job per machine (and per layout for the event machine), so that the conditional frames fold
     for fn, repl in (('format_buffer_hexadecimal', ['print_format_num']), ('format_buffer_string', ['print_string_to_buf', 'print_nstring_to_buf'])):
